@@ -478,6 +478,7 @@ func oracleC06(r *OpRun) {
 	type pos struct{ hook, binding string }
 	syncOK := map[pos][]*Exec{}
 	syncFailedBehindAllowed := map[pos]bool{}
+	syncDropped := map[pos]*Exec{}
 	seenSync := map[pos]bool{}
 	firstEvent := map[pos]*Exec{}
 	firstSched := map[string]*Exec{}
@@ -498,9 +499,12 @@ func oracleC06(r *OpRun) {
 					seenSync[p] = true
 					syncOrder = append(syncOrder, p)
 				}
-				if (!x.Fail || allowed) && x.EndSeq != 0 {
+				if !x.Fail && x.EndSeq != 0 {
 					syncOK[p] = append(syncOK[p], x)
-				} else if x.Fail && len(x.Ctxs) > 1 {
+				} else if x.Fail && allowed && x.EndSeq != 0 && syncDropped[p] == nil {
+					syncDropped[p] = x // failed while failure is allowed: dropped unless it shows up again
+				}
+				if x.Fail && len(x.Ctxs) > 1 {
 					if a, known := r.ctxAllowFailure(x.Hook, x.Ctxs[0]); known && a {
 						syncFailedBehindAllowed[p] = true
 					}
@@ -548,7 +552,7 @@ func oracleC06(r *OpRun) {
 				if n > 1 {
 					r.e.Viol("C06", "U3", "synchronization-twice", "binding %s of %s received %d successful Synchronizations", b.Name, h.Path, n)
 				}
-				if n == 0 && r.quiet {
+				if n == 0 && r.quiet && syncDropped[p] == nil {
 					sig := "synchronization-missing"
 					if syncFailedBehindAllowed[p] {
 						// its only execution failed and was dropped because it was combined behind a task that allows failure
@@ -556,6 +560,10 @@ func oracleC06(r *OpRun) {
 					}
 					r.e.Viol("C06", "U3", sig, "binding %s of %s never received its Synchronization successfully", b.Name, h.Path)
 				}
+			}
+			if n == 0 && syncDropped[p] != nil {
+				syncOK[p] = []*Exec{syncDropped[p]}
+				n = 1
 			}
 			if n > 0 {
 				if ev := firstEvent[p]; ev != nil && ev.StartSeq < syncOK[p][0].EndSeq {
